@@ -67,6 +67,10 @@ CHECKS = {
          "exhaustive enumeration of labelled dependency DAGs of constants and functions (all graphs on n positions x kinds x module placements x reference forms, plus every injected back edge and context read) compiled on the real pipeline with an evaluation-order log oracle",
          "ALL labelled DAGs on n <= 3 declaration positions (n = 4 with one reference form; thorough n = 4 complete, n = 5 restricted) x every node a constant or a function x every placement in pkg / pkg.m x 9 reference forms, the same graphs with every cycle-closing back edge (rejected iff the cycle contains a constant, else accepted recursion) and with a context read reached directly or through functions (rejected iff a constant reaches it): each constant's initialiser is logged exactly once during compile, after all constants it transitively depends on; every getter/function returns the model value afterwards and logs nothing; rejected graphs log nothing.",
          "i32 constants only; filtermaps/tests as graph nodes not covered."),
+ "C15": ("4/C15",
+         "explicit-state search (BFS, states deduplicated by the Vec model's canonical key) over operation histories on up to 3 aliased list handles, every transition executed on real lists rebuilt by replaying the representative history, from Rust and from compiled script one-liners alternately",
+         "All operation sequences to depth 4 (thorough 6) from the empty state and from 54 seeded states around the growth boundaries (lengths 0,3,4,5,7,8,9,16,17; aliased / distinct / made by Rust or by script) over {new, from/literal, clone, drop, push, get, len, is_empty, capacity, swap (all index pairs), contains, index, concat / + (incl. self and aliases), == on all ordered pairs, to_vec, into_iter / for, join, Debug} with indices {0,1,len-1,len,len+1,MAX}, for element types u8, u64, String, List[u8], Val<Z> (zero-sized tracked), Val<Tr> (24-byte tracked) and Option<u32>; every result and the full observable state (contents, len, capacity >= len, aliasing partition) equal the shared-vector model, operands of concat unchanged, ledger balanced after dropping all handles, list buffer events consistent, heap block count unchanged, `==` terminates for every aliasing pattern (watchdog). The harness allocator poisons fresh/freed memory and always moves on realloc.",
+         "Exact capacity values are unspecified (only capacity >= len); depth bound; 79 k states quick / 800 k thorough."),
  "C16": ("4/C16",
          "stateless model checking of the real List/ErasedList/RawList code: controlled scheduler over real OS threads, all interleavings up to a preemption bound at lock-acquisition / element-pointer-use granularity (exact blocking via try_lock probe), with stale-pointer, lockset, deadlock and brute-force linearizability oracles",
          "All programs of 2 threads x 2 operations over a 10-operation menu (thorough: 17 operations unbounded, plus 2x3 and 3x2 shapes at bound 3) on two colliding lists, one pre-filled to capacity so that a push relocates, in both address orders of the two lists; for each program EVERY schedule with at most 2 preemptions is executed on the real code. Each execution is checked for use of an element pointer whose buffer generation changed (deterministic use-after-free detector), element reads outside the critical section (lockset probe), deadlock (no enabled thread), linearizability of the recorded call/return history against the Vec model (brute force) and final contents.",
